@@ -891,7 +891,8 @@ func confirm(r *ev.Run, w *world, cs caseSpec, want string) {
 var reportMu sync.Mutex
 var reported = map[string]bool{}
 
-func report(r *ev.Run, u *unit, cs caseSpec, out caseOut) {
+func report(r *ev.Run, u *unit, cs caseSpec, out caseOut, rank [2]int) {
+	note(u, cs, out, rank)
 	for _, p := range out.problems {
 		if p.Sym == "HARNESS" {
 			r.Broken("harness problem in case %+v: %s", cs, p.What)
@@ -907,9 +908,33 @@ func report(r *ev.Run, u *unit, cs caseSpec, out caseOut) {
 		return
 	}
 	confirm(r, u.w, cs, symSet(out.problems))
+}
+
+// pending violations: for every key the example with the smallest (job, case)
+// rank is reported, so that the reported example does not depend on scheduling.
+type pend struct {
+	rank [2]int
+	what string
+	ro   replayObj
+}
+
+var pending = map[string]pend{}
+
+func note(u *unit, cs caseSpec, out caseOut, rank [2]int) {
+	reportMu.Lock()
+	defer reportMu.Unlock()
 	for _, p := range out.problems {
-		r.Violation(symKey(u.w, p), fmt.Sprintf("world=%s pool=[%s] policy={%s} order=%v addr=%s: %s", u.w.Name, u.poolKey(), cs.Policy, cs.Perm, cs.Addr, p.What),
-			replayObj{Case: cs, Pool: u.poolKey()})
+		k := symKey(u.w, p)
+		if old, ok := pending[k]; ok && (old.rank[0] < rank[0] || (old.rank[0] == rank[0] && old.rank[1] <= rank[1])) {
+			continue
+		}
+		pending[k] = pend{rank, fmt.Sprintf("world=%s pool=[%s] policy={%s} order=%v addr=%s: %s", u.w.Name, u.poolKey(), cs.Policy, cs.Perm, cs.Addr, p.What), replayObj{Case: cs, Pool: u.poolKey()}}
+	}
+}
+
+func flush(r *ev.Run) {
+	for k, p := range pending {
+		r.Violation(k, p.what, p.ro)
 	}
 }
 
@@ -921,7 +946,8 @@ func sampleOnce(k string) bool {
 	return !had
 }
 
-func runUnit(r *ev.Run, w *world, ps poolSpec, o enumOpts) {
+func runUnit(r *ev.Run, jobIdx int, w *world, ps poolSpec, o enumOpts) {
+	seq := 0
 	if r.Expired() {
 		return
 	}
@@ -1010,8 +1036,9 @@ func runUnit(r *ev.Run, w *world, ps poolSpec, o enumOpts) {
 				if _, had := sampled.LoadOrStore(w.Name, true); !had || (r.WantSample() && len(u.txs) >= 4 && pol.MaxW < 3_000_000 && out.nTx > 2 && out.nTx-1 < len(u.txs) && sampleOnce(w.Name+u.poolKey())) {
 					r.Sample(map[string]interface{}{"world": w.Name, "pool": u.poolKey(), "policy": pol.String(), "order": pm, "addr": addr, "template_txs": out.nTx, "W": W})
 				}
+				seq++
 				if len(out.problems) > 0 {
-					report(r, u, cs, out)
+					report(r, u, cs, out, [2]int{jobIdx, seq})
 				}
 			}
 		}
@@ -1136,8 +1163,9 @@ func main() {
 	workers := runtime.NumCPU()
 	ev.Par(len(jobs), workers, func(i int) {
 		j := jobs[i]
-		runUnit(r, j.w, j.ps, j.o)
+		runUnit(r, i, j.w, j.ps, j.o)
 	})
+	flush(r)
 	complete := !r.Expired()
 	if !complete {
 		r.Cap("time box hit; units are processed in a fixed order, see units_built")
